@@ -25,6 +25,12 @@ func main() {
 	)
 	r.SetExhaustive(false)
 	r.Extra("exhaustive_subdomains", []string{"pkcs7.Pad/Unpad for all block sizes 1..255 x message lengths 0..2b+1", "pkcs7.Unpad on all buffers of length 1..6 over {00,01,02,03,FF}", "RC4 key lengths 1..256", "CMAC 2-way splits of every message length 0..N"})
+	// race side run (./check builds this monitor with -race): only the workloads in which goroutines
+	// use the library at the same time; the detector's reports are filed by Finish
+	if mon.SideRace() {
+		stateWorkload()
+		r.Finish()
+	}
 	rc4Workload()
 	cmacWorkload()
 	pkcs7Workload()
